@@ -184,7 +184,7 @@ ly_err_new(struct ly_err_item **err, LY_ERR ecode, LY_VECODE vecode, char *data_
 static struct ly_ctx_err_rec *
 ly_err_get_rec(const struct ly_ctx *ctx)
 {
-    struct ly_ctx_err_rec rec, *match;
+    struct ly_ctx_err_rec rec, *recp = &rec, **match = NULL, *found;
 
     /* prepare record */
     rec.tid = pthread_self();
@@ -193,13 +193,14 @@ ly_err_get_rec(const struct ly_ctx *ctx)
     /* LOCK */
     pthread_mutex_lock((pthread_mutex_t *)&ctx->lyb_hash_lock);
 
-    /* get the pointer to the matching record */
-    lyht_find(ctx->err_ht, &rec, lyht_hash((void *)&rec.tid, sizeof rec.tid), (void **)&match);
+    /* get the separately allocated record, the table only stores a pointer to it */
+    lyht_find(ctx->err_ht, &recp, lyht_hash((void *)&rec.tid, sizeof rec.tid), (void **)&match);
+    found = match ? *match : NULL;
 
     /* UNLOCK */
     pthread_mutex_unlock((pthread_mutex_t *)&ctx->lyb_hash_lock);
 
-    return match;
+    return found;
 }
 
 /**
@@ -211,23 +212,30 @@ ly_err_get_rec(const struct ly_ctx *ctx)
 static struct ly_ctx_err_rec *
 ly_err_new_rec(const struct ly_ctx *ctx)
 {
-    struct ly_ctx_err_rec new, *rec;
+    struct ly_ctx_err_rec *rec;
     LY_ERR r;
 
-    /* insert a new record */
-    new.err = NULL;
-    new.tid = pthread_self();
+    /* allocate a new record, it never moves */
+    rec = calloc(1, sizeof *rec);
+    if (!rec) {
+        return NULL;
+    }
+    rec->tid = pthread_self();
 
     /* reuse lock */
     /* LOCK */
     pthread_mutex_lock((pthread_mutex_t *)&ctx->lyb_hash_lock);
 
-    r = lyht_insert(ctx->err_ht, &new, lyht_hash((void *)&new.tid, sizeof new.tid), (void **)&rec);
+    r = lyht_insert(ctx->err_ht, &rec, lyht_hash((void *)&rec->tid, sizeof rec->tid), NULL);
 
     /* UNLOCK */
     pthread_mutex_unlock((pthread_mutex_t *)&ctx->lyb_hash_lock);
 
-    return r ? NULL : rec;
+    if (r) {
+        free(rec);
+        return NULL;
+    }
+    return rec;
 }
 
 LIBYANG_API_DEF const struct ly_err_item *
